@@ -286,15 +286,33 @@ def cutoff_obligations(R):
 
 
 def consumer_obligations(R):
-    """AST facts about the consumers: they take sizes from param / fd consistently (with O1: equal)."""
-    import ast, inspect, textwrap
+    """the consumer of the grid sizes: the real AurelCore.__init__ runs on a grid object whose N are z3 integers;
+    ensures data_shape == (Nx, Ny, Nz) (== fd.x.shape by the constructor obligations) and, for a centre inside the
+    box, the default extraction radius is positive and the sphere stays inside the grid."""
+    import types
     import aurel.core as C
     t0 = time.time()
-    src = textwrap.dedent(inspect.getsource(C.AurelCore.__init__))
-    ok = "self.data_shape = (self.param['Nx'], self.param['Ny'], self.param['Nz'])" in ' '.join(src.split()).replace('( ', '(').replace(' )', ')')
     R.under_contract(C.AurelCore.__init__)
-    R.ob('core.AurelCore.__init__:data_shape = (param Nx, Ny, Nz) = fd.x.shape (by O1-O3)', '__init__',
-         'discharged' if ok else 'undecided', 'ast', time.time() - t0, '' if ok else 'data_shape assignment not recognised')
+
+    def run():
+        c = SX.ctx()
+        N = {a: z3.Int('N' + a) for a in 'xyz'}
+        for a in 'xyz':
+            c.assume(N[a] >= 1)
+        fd = types.SimpleNamespace(param={'N' + a: Z(N[a]) for a in 'xyz'}, xmin=-1.0, xmax=2.0, ymin=-3.0, ymax=1.5, zmin=-0.5, zmax=4.0)
+        fd.param.update(xmin=-1.0, ymin=-3.0, zmin=-0.5, dx=0.1, dy=0.1, dz=0.1)
+        rel = object.__new__(C.AurelCore)
+        C.AurelCore.__init__(rel, fd, verbose=False)
+        ds = rel.data_shape
+        c.require('data_shape == (Nx, Ny, Nz)', z3.And(z3.BoolVal(len(ds) == 3), *[to_z3(v) == N[a] for v, a in zip(ds, 'xyz')]) if len(ds) == 3 else z3.BoolVal(False))
+        r0 = rel.extract_radii[0]
+        inside = 0 < r0 <= min(1.0, 2.0, 3.0, 1.5, 0.5, 4.0)
+        c.require('default extraction sphere (centre inside the box) has positive radius and stays inside the grid', z3.BoolVal(bool(inside)))
+        c.require('cache starts empty, counters at 0', z3.BoolVal(rel.data == {} and rel.last_accessed == {} and rel.calculation_count == 0))
+    try:
+        discharge(R, 'core.AurelCore.__init__', '__init__', explore(run))
+    except Exception as e:
+        R.ob('core.AurelCore.__init__:symbolic-run', '__init__', 'undecided', 'z3', time.time() - t0, f'{type(e).__name__}: {e}')
 
 
 def native_grid_replay(o=None):
